@@ -213,4 +213,9 @@ def run(ctx):
     # what a directory entry names was appended before: the builder's layout laws (rules/families.py)
     from rules import families as _fam2
     _fam2.image_builder(ctx, "C10")
+    # memory descriptors are final when pushed and the memory list is that list as it is (same rule instances as C07/memory-blocks-writers,
+    # C07/list-after-producers)
+    from rules import c07 as _c07m
+    _c07m.rule_memory_blocks_writers(ctx, R="C10/memory-blocks-writers")
+    _c07m.rule_list_after_producers(ctx, R="C10/memory-list-as-produced")
 
